@@ -23,10 +23,10 @@ CHECKS = {
           "Exhaustive over Sigma^<=2 (39 symbols incl. quotes, backslashes, controls, invalid UTF-8, JSON fragments) x 31 positions x 2 "
           "encoder entry points; length 3 on a rotation (thorough: all).  Term/kind correctness of every property is checked by C05.",
           TRUST, "DESIGN.md §4 C02"),
- "C04": C("TLA+ Hostile.tla: grammar of hostile documents (type x term x 34 JSON shapes x nesting) and the outcome alphabet of decode and "
+ "C04": C("TLA+ Hostile.tla: grammar of hostile documents (type x term x 35 JSON shapes x nesting, the same inside rich base documents, alternating 60-level chains over pairs of item-valued terms, lists of thousands of members) and the outcome alphabet of decode and "
           "follow-up calls (no transition to panic/hang), model-checked; TLC prints every cell's document; all decoding entry points driven in "
           "child processes under recover(), a watchdog and an allocation measurement; HostileTrace.tla judges outcomes and cost bounds",
-          "Every cell of the grammar plus byte-level damage (empty, all one-byte inputs, all prefixes of sample documents, gob truncations and "
+          "Every cell of the grammar (incl. rich bases, chains and wide lists) plus byte-level damage (empty, all one-byte inputs, all prefixes of sample documents, gob truncations and "
           "seeded bit flips) at the JSON/text/gob entry points (73), with follow-ups on every returned value.",
           TRUST + " 'All byte strings' is approximated by the grammar plus bounded byte-level damage.", "DESIGN.md §4 C04"),
  "C05": C("TLA+ JsonCodec.tla: tagged JSON trees, Pres (the documents an independent writer may produce), Dec (what a document denotes, "
@@ -43,17 +43,17 @@ CHECKS = {
           "Exhaustive: every vocabulary/generic/empty/outsider name x 7 channels x 2 hook settings executed on the real code.",
           TRUST, "DESIGN.md §4 C07"),
  "C08": C("TLA+ Views.tla: SafeView rule evaluated by TLC on layout/site facts extracted from the current tree with go/types, struct terms "
-          "against Vocab!Props; every To* helper x struct type x form executed under the runtime pointer checker in child processes",
-          "All conversion sites found statically (48) and all 14x14x2 dynamic combinations: field-faithful reads, writes through pointer views, "
+          "against Vocab!Props; every To* and On* helper x struct type x form executed under the runtime pointer checker in child processes; growth leg Destructure.tla (callback helpers over lists) as observations",
+          "All conversion sites found statically (48) and all 28x14x2 dynamic combinations: field-faithful reads, writes through pointer views, "
           "no view wider than its source, no checkptr abort.", TRUST + " Layouts are gc/amd64.", "DESIGN.md §4 C08"),
  "C09": C("TLA+ law module Equality.tla (laws chosen from the pair by the spec; consistency and non-vacuity model-checked); TLC generates "
           "pairs per law from the case families; real ItemsEqual replayed incl. random deep values; EqualityTrace.tla judges",
           "All case values against themselves (reflexivity), single-property identity mutations in both orders, id/type variants, "
           "nil-like x non-nil combinations, value/pointer forms rotated; random deep values beyond.", TRUST, "DESIGN.md §4 C09"),
  "C10": C("TLA+ state machine Recipients.tla model-checked (6 invariants from the property's clauses); TLC prints every transition, the "
-          "harness performs it on every addressable Go type; RecipientsTrace.tla judges recorded events incl. random larger values",
+          "harness performs it on every addressable Go type; RecipientsTrace.tla judges recorded events incl. random larger values; composition leg Delivery.tla (address -> strip -> encode -> deliver/re-deliver -> persist -> update; all interleavings model-checked, a must-fail configuration with the wrong call order) whose Recipients() steps on real histories are judged by DeliveryTrace.tla",
           "Exhaustive TLC check of the de-duplication design for all cuts of <=3 entries; every transition for <=2 entries over a "
-          "14-entry pool replayed on the real Recipients() of the Go types of its class; random values beyond.", TRUST, "DESIGN.md §4 C10"),
+          "14-entry pool replayed on the real Recipients() of the Go types of its class; random values beyond; the delivery protocol run on every third of those values under two network schedules.", TRUST, "DESIGN.md §4 C10"),
  "C11": C("TLA+ Clean.tla (recursive CleanV along the walked properties, Leaks, idempotence; model-checked on the generated trees); "
           "trees replayed on Clean() of every type offering it; CleanTrace.tla requires post = CleanV(pre), no leak, none in the JSON form",
           "All generated trees (13 root types x positions x subtree shapes, lists, depth-4 chain) and random trees of depth <=3/4.",
